@@ -50,8 +50,9 @@ def _problem(dbname):
     class P(Problem):
         def set(self):
             self.name = "roundtrip problem"
-            self.parameters = [{'name': 'a', 'bounds': [-1.5, 2.5], 'initial_value': 0.1}, {'name': 'b', 'bounds': [0, 1e-9], 'precision': 1e-3}]
-            self.costs = [{'name': 'f', 'criteria': 'minimize'}, {'name': 'g', 'criteria': 'maximize'}]
+            # declaration order differs from the lexicographic order of the names (x_2 before x_10, weight before efficiency)
+            self.parameters = [{'name': 'x_2', 'bounds': [-1.5, 2.5], 'initial_value': 0.1}, {'name': 'x_10', 'bounds': [0, 1e-9], 'precision': 1e-3}]
+            self.costs = [{'name': 'weight', 'criteria': 'minimize'}, {'name': 'efficiency', 'criteria': 'maximize'}]
 
         def evaluate(self, individual):
             return [sum(individual.vector), individual.vector[0] * 0.1]
@@ -124,8 +125,15 @@ def roundtrip(rng, tier):
                     else:
                         for x in pool:
                             x.population_id += 1
+                        if r.random() < 0.4:
+                            # a second recorded individual that carries an id already in use (a continued run re-uses ids):
+                            # the last one recorded wins
+                            y = _individual(r, pool)
+                            y.id = r.choice(pool).id
+                            pool.append(y)
+                            p.individuals.append(y)
                         p.data_store.sync_all()
-                        for x in pool:
+                        for x in p.individuals:
                             expected[x.id] = _expected(x)
                 view, rows = _reopen(dbname)
                 return {"view": view, "rows": rows, "expected": expected, "problem": p}
